@@ -3,7 +3,7 @@ CONSTANTS
   MaxBreaches = 3
   MaxSteps = 1
   Acts = {}
-INVARIANTS Sound SoftNeverError Complete
+INVARIANTS Sound SoftNeverError Complete SoftWarns
 PROPERTIES HistoryFree RepairRestores
 VIEW View
 ACTION_CONSTRAINT Emit
